@@ -272,8 +272,8 @@ import (
 // content addressing (assumed, facet wf): the CID of a new block ranks above every CID it contains (hash links are
 // acyclic) and no entry that already exists names it (a hash cannot be predicted before its block exists)
 //@ @wf assumes [content-addressing-new-hash-ranks-above-its-links] err == nil ==> forall j int :: 0 <= j && j < len(result0.Next) ==> rank(str(result0.Next[j])) < rank(ehash(result0))
-//@ @wf assumes [content-addressing-same-hash-same-links] err == nil ==> forall o *Entry :: preexisting(o) && ehash(o) == ehash(result0) ==> sameCids(o.Next, result0.Next)
-//@ @wf assumes [content-addressing-new-hash-is-not-yet-named] err == nil ==> forall o *Entry, j int :: preexisting(o) && 0 <= j && j < len(o.Next) ==> str(o.Next[j]) != ehash(result0)
+//@ @wf assumes [content-addressing-same-hash-same-links] err == nil ==> forall o *Entry :: {ehash(o)} preexisting(o) && ehash(o) == ehash(result0) ==> sameCids(o.Next, result0.Next)
+//@ @wf assumes [content-addressing-new-hash-is-not-yet-named] err == nil ==> forall o *Entry, j int :: {str(o.Next[j])} preexisting(o) && 0 <= j && j < len(o.Next) ==> str(o.Next[j]) != ehash(result0)
 
 // ---- utils.go ----
 // C02 vocabulary (facet wf).  names(e, k): entry e lists hash k as a predecessor; namedIn(m, k): some entry of m does.
